@@ -115,6 +115,18 @@ def run(cfg, V):
         o["getvalue"] = (s_base.GetValue(sp), s_base.GetValue(u), Scalar(x, sp).GetValue(base), Array([x], base, cat).GetValues(sp)[0])
         o["convert"] = (db.Convert(qt, sp, base, x), db.Convert(cat, base, sp, x), db.Convert(qt, sp, u, x), db.Convert(qt, [x][0:0] or sp, sp, x))
         o["lists"] = (db.Convert(qt, sp, base, [x])[0], db.Convert(qt, sp, base, (x,))[0])
+        # every container kind, legacy spelling as SOURCE and as TARGET, through Convert, Array.GetValues, CreateCopy
+        from symx.shims import SymArray
+        from symx import core as _core
+        import numpy as _np
+
+        mk = {"list": lambda: [x, x], "tuple": lambda: (x, x), "numpy": lambda: SymArray([x, x]) if _core.is_sym(x) else _np.array([x, x], dtype=float),
+              "tuples": lambda: [(x, x), (x,)]}
+        flat = lambda r: [e for t in r for e in (t if isinstance(t, tuple) else (t,))]  # noqa: E731
+        o["cont_to_legacy"] = {kk: flat(Array(f(), base, cat).GetValues(sp)) + flat(Array(f(), base, cat).CreateCopy(unit=sp).GetValues())
+                               + (flat(db.Convert(qt, base, sp, f())) if kk != "tuples" else []) for kk, f in mk.items()}
+        o["cont_from_legacy"] = {kk: flat(Array(f(), sp, cat).GetValues(base)) + (flat(db.Convert(qt, sp, base, f())) if kk != "tuples" else []) for kk, f in mk.items()}
+        o["fixed_legacy"] = (FixedArray(2, [x, x], base, cat).IndexAsScalar(0, ObtainQuantity(sp, cat)).GetValue(), FixedArray(2, mk["numpy"](), base, cat).ChangingIndex(1, (x, sp)).GetUnit())
         o["qt_base"] = (qt, base)
         # every category of the quantity type, and constructions that by-pass the quantity cache after the spelling was already used once
         from barril.units import Quantity
@@ -178,6 +190,11 @@ def props(cfg, T, obs):
         ("UnitDatabase.Convert accepts the legacy spelling on both sides", z3.And(approx(obs["convert"][0], to_base), approx(obs["convert"][1], from_base),
                                                                                  approx(obs["convert"][2], x), approx(obs["convert"][3], x),
                                                                                  approx(obs["lists"][0], to_base), approx(obs["lists"][1], to_base))),
+        ("every container kind converts TO the legacy spelling like the current spelling (GetValues, CreateCopy, Convert; list, tuple, numpy, list of tuples)",
+         z3.And(*[approx(e, from_base) for es in obs["cont_to_legacy"].values() for e in es], z3.BoolVal(all(len(es) >= 4 for es in obs["cont_to_legacy"].values())))),
+        ("every container kind converts FROM the legacy spelling like the current spelling",
+         z3.And(*[approx(e, to_base) for es in obs["cont_from_legacy"].values() for e in es], z3.BoolVal(all(len(es) >= 2 for es in obs["cont_from_legacy"].values())))),
+        ("FixedArray.IndexAsScalar / ChangingIndex accept a legacy-spelled quantity / amount unit", z3.And(approx(obs["fixed_legacy"][0], from_base), z3.BoolVal(obs["fixed_legacy"][1] == u))),
         ("AddCategory stores current spellings (default and valid units)", d1 == u and v1 == want_valid and v2 == want_valid and v3 == [u]
          and d2 == (base_u if base_u in want_valid else u) and d3 == u),
         ("a category registered with legacy spellings is usable", bool(obs["addcat_use"])),
